@@ -11,7 +11,7 @@ META = {
                           'Signal.get_section_average', 'eqsig.fns.average.get_section_average', 'eqsig.fns.time_shift.time_indices'],
     'stubs': [],
     'bounds': {'quick': 'components n=4 symbolic; angles {0,30,90,180,210,270,-45}; offsets {0,25}; points in {3,7}; clusters of '
-                        '2..4 signals with every master_index; lags -(steps-1)..steps-1 for steps=2 and lags -1..2 at steps=3, n=8 (7 for lag -1 at steps=3), symbolic '
+                        '2..4 signals with every master_index; lags -(steps-1)..steps-1 for steps=2 (lags -1..1) and lags 0..2 at steps=3, n=8, symbolic '
                         'samples and fill values; section windows by time and by index',
                'thorough': 'steps=4 with n=10; n=12 for steps 2,3'},
     'outside': ['combine_motions, calculate_ratios', 'symbolic angles (cos/sin have no decision procedure; enumerated)',
@@ -181,7 +181,7 @@ def obligations(tier, seed):
             # negative lags at steps >= 3 make every running-minimum comparison a free quadratic inequality: smaller n
             nn = 8 if steps < 4 else 10
             if steps >= 3 and lag < 0:
-                if q and lag <= -2:
+                if q:
                     continue                     # thorough tier only (50-200 s each)
                 nn = 7 if q else 8
             yield Ob('time_match', {'n': nn, 'steps': steps, 'lag': lag}, query_ms=60000, timeout_s=1500,
